@@ -614,3 +614,104 @@ def run_c17(tier, seed, scale, verif):
     return {"evaluations": stats["ordinals"], "distinct_nontrivial": stats["wrong_suffixes"], "samples": [{"text": docs[0][0][:160]}], "findings": list(merged.values()),
             "notes": ["harper-ls on ordinals behind astral / BMP text: %(documents)d documents, %(ordinals)d ordinals, %(wrong_suffixes)d wrong suffixes, %(fixes_applied)d documents fixed and re-checked" % stats],
             "inconclusive": inconclusive if len(inconclusive) > 2 else [], "counters": {"ls_" + k: v for k, v in stats.items()}, "wall_s": time.time() - t0}
+
+
+def run_c12(tier, seed, scale, verif):
+    """C12 at the server: a plain-text document P ++ D is opened next to P alone and D alone; the diagnostics of the
+    whole must be those of P plus those of D moved down by P's lines (P ends in a blank line)."""
+    t0 = time.time()
+    rng = random.Random(seed * 7907 + 12)
+    import c08
+    sentences = c08.load_sentences(verif)
+    n = int((600 if tier == "quick" else 12000) * scale) or 1
+    leads = ["", "", "\U0001F600 ", "\U0001D400\U0001D401 ", "café ", "中文 ", "\U0001F468‍\U0001F469‍\U0001F467 ", "\t"]
+    flagged = c08.FLAGGED
+    cases = []
+    for _ in range(n):
+        def para():
+            k = rng.randint(1, 3)
+            lines = []
+            for _ in range(k):
+                body = rng.choice(flagged) if rng.random() < 0.5 else rng.choice(sentences)
+                body = body.replace('"', "").replace("“", "").replace("”", "")
+                if not body.rstrip().endswith((".", "!", "?")):
+                    body = body.rstrip() + "."
+                lines.append(rng.choice(leads) + body)
+            return rng.choice([" ", "\n"]).join(lines)
+        p = para() + rng.choice(["\n\n", "\n\n", "\n\n\n"])
+        d = para() + rng.choice(["", "\n"])
+        cases.append((p, d))
+    base = os.path.join(verif, "target", "run", "lsx_c12")
+    shutil.rmtree(base, ignore_errors=True)
+    os.makedirs(base)
+    findings, inconclusive = [], []
+    stats = {"pairs": 0, "diagnostics": 0, "astral_in_P": 0}
+    lock = threading.Lock()
+    nservers = 6
+
+    def keyset(text, diags, line_shift=0):
+        out = []
+        for dg in diags or []:
+            r = dg["range"]
+            out.append((r["start"]["line"] + line_shift, r["start"]["character"], r["end"]["line"] + line_shift, r["end"]["character"], dg["message"]))
+        return sorted(out)
+
+    def session(k):
+        s = None
+        try:
+            s = Server(os.path.join(base, "s%d" % k))
+            s.initialize()
+            for i, (p, d) in enumerate(cases[k::nservers]):
+                got = {}
+                for name, text in (("whole", p + d), ("P", p), ("D", d)):
+                    uri = uri_for(os.path.join(s.workdir, "%s%d.txt" % (name, i)))
+                    n0 = s.n_publishes(uri)
+                    s.notify("textDocument/didOpen", {"textDocument": {"uri": uri, "languageId": "plaintext", "version": 1, "text": text}})
+                    if await_publish(s, uri, n0, 60.0) != "ok":
+                        raise client.ServerDied("no publish for %s of pair %d" % (name, i))
+                    got[name] = s.last_diagnostics(uri)
+                    s.notify("textDocument/didClose", {"textDocument": {"uri": uri}})
+                plines = p.count("\n")
+                exp = sorted(keyset(p, got["P"]) + keyset(d, got["D"], plines))
+                obs = keyset(p + d, got["whole"])
+                with lock:
+                    stats["pairs"] += 1
+                    stats["diagnostics"] += len(obs)
+                    stats["astral_in_P"] += any(ord(c) > 0xFFFF for c in p)
+                    if obs != exp:
+                        only_w = [x for x in obs if x not in exp]
+                        only_e = [x for x in exp if x not in obs]
+                        m = (only_w or only_e)[0]
+                        side = "extra-in-whole" if only_w else "missing-in-whole"
+                        findings.append({"prop": "C12", "sig": "ls.%s@%s" % (side, norm_msg(m[4])), "count": 1, "wlen": len(p + d), "witness": {"P": p, "D": d, "language_id": "plaintext"},
+                                         "detail": "diagnostics of P++D differ from those of P plus those of D moved down by %d lines: only for the whole %r; only for the parts %r" % (plines, only_w[:3], only_e[:3])})
+                s.log.clear()
+                s.publishes.clear()
+        except (client.Timeout, client.ServerDied, OSError) as e:
+            with lock:
+                inconclusive.append("session %d: %s" % (k, e))
+        finally:
+            if s is not None:
+                try:
+                    s.shutdown()
+                except Exception:
+                    s.kill()
+
+    threads = [threading.Thread(target=session, args=(k,)) for k in range(nservers)]
+    for t in threads:
+        t.start()
+    for t in threads:
+        t.join()
+    shutil.rmtree(base, ignore_errors=True)
+    merged = {}
+    for f in findings:
+        if f["sig"] not in merged:
+            merged[f["sig"]] = f
+        else:
+            merged[f["sig"]]["count"] += 1
+            if f["wlen"] < merged[f["sig"]]["wlen"]:
+                f["count"] = merged[f["sig"]]["count"]
+                merged[f["sig"]] = f
+    return {"evaluations": stats["pairs"], "distinct_nontrivial": stats["astral_in_P"], "samples": [{"P": cases[0][0], "D": cases[0][1]}], "findings": list(merged.values()),
+            "notes": ["harper-ls on P++D, P and D as plain-text documents: %(pairs)d pairs, %(diagnostics)d diagnostics of the whole compared, %(astral_in_P)d pairs with astral characters in P" % stats],
+            "inconclusive": inconclusive if len(inconclusive) > 1 else [], "counters": {"ls_" + k: v for k, v in stats.items()}, "wall_s": time.time() - t0}
